@@ -8,23 +8,31 @@ PROP = {
             "every integer width) and a template of independent statements from a restricted grammar whose uses of every variable "
             "are known (print, string filters as receiver and argument, == != < > <= >=, contains, case/when, conditions, "
             "arithmetic filters as receiver and argument, loops with modifiers, tablerow, array filters join/first/last/reverse/"
-            "sort/uniq/compact/concat/map/size, index and property lookup, map lookup/size/iteration). Five further environments "
+            "sort/sort_natural/uniq/compact/concat/map/size, index and property lookup, map lookup/size/iteration; since fixes/nested-drops-resolved "
+            "also every place that prints a container in Go syntax: {{ m }} of a map, an array or map converted to a string parameter, "
+            "join and sort_natural of nested arrays, an array or map as the needle of a string `contains`, uniq and == on nested arrays). "
+            "Five further environments "
             "are derived with a representation chosen independently at every node and only where C18 names it: a drop at any "
-            "depth; a pointer at a variable and at the values of a lookup-only map; typed slices, fixed arrays and string-keyed "
+            "depth, now and then a drop that yields a drop (that yields a drop), inside printed containers and under uniq too; a pointer at a variable and at the values of a lookup-only map; typed slices, fixed arrays and string-keyed "
             "typed maps when the elements fit; yaml.MapSlice for a lookup/size-only map; every signed and unsigned width that "
             "holds an integer and float32 for exactly representable floats in print/compare/arithmetic positions; []byte for a "
             "string that is only printed or passed to a string filter. All six are rendered on the real engine (and by the "
             "model); a difference is isolated to one statement and minimised to the variable and representation feature. "
-            "Fixed family (shard 0, real engine only): seven (variant, generic twin) pairs under fixed case names `reps-nested "
-            "<name>` - the four known deviations (drop-in-printed-map, drop-in-array-to-string, drop-of-drop-in-array-equal, "
-            "uniq-typed-nested-slice: reported, matched by known_findings.json and printed as KNOWN-FINDING) and three controls "
-            "that must agree; the random generator keeps drops out of containers that are printed in Go syntax.",
+            "Fixed family (shard 0, real engine only; repsNestedDropFamily): 1070 rows (name, template, variant bindings) under fixed case "
+            "names `reps-nested <name>`, the generic twin made from the variant by stripping the drop wrappers and the container types "
+            "at every depth; ORACLE: the variant renders exactly what its twin renders. 12 explicit rows (the four former deviations "
+            "drop-in-printed-map, drop-in-array-to-string, drop-of-drop-in-array-equal, uniq-typed-nested-slice, which now must agree; "
+            "controls; lookups through up to five drops in a row), 19 array shapes x 38 paths and 12 map shapes x 28 paths (drops at "
+            "depth 1-3 and at every depth, drop of drop of drop, maps in arrays and arrays in maps, drops as map values, typed slices "
+            "and maps nested in arrays; print, join, conversion to a string, first/last, for/tablerow, == != <, contains as element and "
+            "as needle, case/when, sort, sort_natural, sort by key, uniq, compact, concat, reverse, map, size, index/property lookup, "
+            "default, string filters). json, inspect and type are left out: they print the Go representation by design "
+            "({{ m | json }} with m = {\"a\": Drop(1)} is {\"a\":{}}).",
     "trusted_base": COMMON_TB + ["the generator's use analysis decides where a representation may stand"],
     "assumptions": ["integers of every width are compared with integers, floats of either width with floats: an int is not replaced by a float",
                     "`size` takes any value (array length / rune count / 0) and is not a string filter: []byte is not used there",
-                    "uniq distinguishes by Go interface equality, so arrays under uniq get one representation for all elements",
+                    "uniq distinguishes SCALARS by Go interface equality (1, 1.0 and int8(1) are three elements), so the scalar elements of an array under uniq get one numeric width; nested containers and drops vary freely",
                     "json, inspect and type print the Go representation (their purpose) and are not generated",
-                    "arrays nested in arrays are not printed in Go syntax (join of nested arrays) with drops inside",
                     "[]uint8 is []byte in Go and is not used as a typed integer slice"],
 }
 
@@ -40,20 +48,27 @@ TEXT = {
               'two environments with pointwise equivalent bindings gives the same RunResult (mutual induction over the compiled '
               'tree on the two runs in lock step: rel_renderNode; eval_rel for expressions; assign/capture/loop/forloop/cycle/'
               'include state threading); run_rep_independent_upto_unmodelled is the same up to the boundary of the model. '
-              'Standard configuration (d = false): stdOut_respects (printing), opEq/opLt/opContains_prep_vrel and '
+              'Standard configuration (d = false): stdOut_respects (printing; proved for d = true as well, see below), opEq/opLt/opContains_prep_vrel and '
               'equal_prep_repEq (comparisons), filterRespects_std / filterRespects_std_upto (every standard filter except those that '
-              'observe the Go representation - uniq, and the value/debugging filters json, inspect, type; '
+              'observe the Go representation - the value/debugging filters json, inspect, type; uniq respects the equivalence since '
+              'fixes/nested-drops-resolved: uniq_respects, uniqKey_repEq for every d; '
               'filterRespects_of_scalar: any filter whose parameters are all bool/int/float64/string/time, whatever its body; sort '
               'and sort_natural exactly on at most 12 elements (congruence of the insertion-sort model insertionSortM: '
               'sortWith_rel_short, sortNaturalWith_rel_short) and through List.map_mergeSort up to their unmodelled tie order '
               'beyond) give '
               'run_std_rep_independent_partial / run_std_rep_independent_without_repr_filters: on the standard engine with any set of '
-              'registered filters that excludes uniq, json, inspect and type every template renders to agreeing results (equal, or one run is outside the '
+              'registered filters that excludes json, inspect and type every template renders to agreeing results (equal, or one run is outside the '
               'model) for environments that differ in typed vs generic slices, fixed arrays, typed maps at any depth and in '
-              'drops/pointers around a binding. Forced restrictions are recorded as evaluated counterexamples in '
-              'Proofs/C18.lean (uniq sees nested element types; type prints the Go type; json/inspect marshal the Go value: '
-              '[]uint8 as base64, map[any]any rejected; fmt.Sprint shows drops inside maps and under string filters; a '
-              'drop yielding a drop inside an array under values.Equal; only Go int indexes, bounds a range and sets '
+              'drops/pointers around a binding. Drops nested in containers (d = true): run_stdOut_rep_independent_nested_drops - for '
+              'every comparison/filter layer that respects the equivalence with nested drops, the STANDARD output layer (stdOut_respects t true: '
+              'writeObject writes arrays element by element and maps through fmt.Sprint(values.ResolveDrops(.)); sprintR_norm, writeChunksL_norm '
+              'for every d) and every template render two such environments to the same result; sprintR_repEq (every place that prints in Go '
+              'syntax: Convert to string, join, sort_natural) and uniqKey_repEq hold for d = true; the congruence of values.Equal / Less / contains '
+              'and of the other filter bodies is proved for d = false only. The four former deviations are theorems of the opposite statement, '
+              'evaluated on the same templates and bindings (uniq_typed_nested_slice_repaired, drop_in_printed_map_repaired, '
+              'drop_in_array_to_string_repaired, drop_of_drop_in_array_equal_repaired). Forced restrictions are recorded as evaluated counterexamples in '
+              'Proofs/C18.lean (type prints the Go type; json/inspect marshal the Go value: '
+              '[]uint8 as base64, map[any]any rejected; only Go int indexes, bounds a range and sets '
               'limit/offset/cols; a fixed-array needle against a fixed-array MapSlice key; a pointer nested in a container prints '
               'as an address). The per-construct theorems remain, each about one operation of the model: drop_* (unwrap, property and index lookup, use as index, truth test, integer '
               'use, printing, also as an array element), ptr_unwrap_* / ptr_propertyValue_slice / ptr_indexValue_map (a pointer to '
@@ -64,20 +79,26 @@ TEXT = {
               'equal_num/less_num, not audited here; no theorem on arithmetic by width nor on float32). Tie: the `reps` stream '
               'renders every generated template with the generic and five derived Go representations of one logical environment '
               'on the model and on the real engine and requires all of them to render identically on the real engine; in addition '
-              'a fixed family of seven (variant, generic twin) pairs is run on the real engine only, of which four are known to '
-              'differ (see Limits) and are whitelisted under fixed case names - any other difference is a violation.'),
+              'a fixed family of 1070 (variant, generic twin) rows with drops and typed containers nested at depth 1-3 under every printing, '
+              'comparison and array-filter path is run on the real engine only and every row must agree (the four former deviations among them).'),
     "design_ref": 'DESIGN.md 6 C18',
-    "note": NOTE + ('The property as stated is FALSE on the real engine in four recorded places: a drop inside a map that is printed '
-              'whole ({{ m }} shows the Go struct), a drop inside an array converted to a string parameter ({{ a | append: "" }}), '
-              'a drop that yields a drop inside an array under case/when (values.Equal resolves one level), and uniq on nested '
-              'typed slices ([]int{1} and []any{1} are distinct elements). They are recorded in known_findings.json '
-              '(K-C18-*, status known; DESIGN 7.1b), proved as counterexamples in Proofs/C18.lean, reported as KNOWN-FINDING by the '
-              'fixed family of the reps stream on every run, and not repaired; apart from these four whitelisted pairs the reps '
-              'oracle requires identical rendering. '
+    "note": NOTE + ('The property as stated was FALSE on the real engine in four recorded places (a drop inside a map that is printed '
+              'whole, a drop inside an array converted to a string parameter, a drop that yields a drop inside an array under '
+              'case/when, uniq on nested typed slices); they are repaired by fixes/nested-drops-resolved (known_findings.json K-C18-*, '
+              'status fixed; DESIGN 7.1b), the former counterexamples of Proofs/C18.lean are theorems of the opposite statement, and the '
+              'fixed family of the reps stream requires all of them (and 1066 further rows) to agree; no pair is whitelisted any more. '
+              'values.ToLiquid stops after 64 drops in a row and values.ResolveDrops after 64 levels of containers (guards against a drop that '
+              'yields itself); the model follows every chain to its end and the driver answers `unmodelled` for a value that holds a drop '
+              'and is nested more than 64 deep (GoVal.withinDropDepth). json, inspect and type still print the Go representation of a nested '
+              'drop ({} for the struct), by design. A string `contains` whose needle is an array or a map (fmt.Sprint of the needle) is outside the '
+              'model (Cmp.sprintNeedle answers unmodelled): the statements of the reps stream that do it are checked by the oracle on the real engine '
+              'only, and a generated case that holds one is skipped by the model comparison as a whole (about 12% of the quick tier). '
               'The whole-template theorem is parametric in the value layer; for the standard layer it is proved for the '
               'relation without drops nested in containers (d = false), up to unmodelled results (agreement is vacuous when either '
-              'run is outside the model), and without the filters uniq, json, '
-              'inspect, type (which observe the Go representation and do not respect the equivalence: counterexamples in Proofs/C18.lean). '
+              'run is outside the model), and without the filters json, '
+              'inspect, type (which observe the Go representation and do not respect the equivalence: counterexamples in Proofs/C18.lean); '
+              'for the relation WITH drops nested in containers (d = true) the output layer and uniq are proved, the standard comparisons and '
+              'the other filter bodies are covered by the reps stream and its fixed family only. '
               'Pointers are followed at the top of a binding or expression result only: pointers stored inside maps or arrays '
               '(reached by lookup) and pointers to a struct, range or time are outside the equivalence and covered by the reps '
               'stream only. Numeric width: theorems for printing and truthiness of integers only; comparison by C09 (not audited '
